@@ -65,6 +65,7 @@ type runner struct {
 
 	steps    int64
 	skipped  int64
+	detours  int64
 	calls    int64
 	paths    int64
 	mu       sync.Mutex
@@ -183,7 +184,7 @@ func (rn *runner) runPath(ch chooser, seed int64, phase string, keep bool) (fina
 		atomic.AddInt32(&rn.stateHit[cur.ID], 1)
 		local[fnv(fmt.Sprintf("%d|%s", from.ID, op.Key()))] = struct{}{}
 		last := ch(cur, k+1) < 0
-		if rn.cfg.obsEvery > 0 && (last || (phase != "cover" && k%rn.cfg.obsEvery == 0)) {
+		if rn.cfg.obsEvery > 0 && (last || (phase != "cover" && phase != "cover-detour" && k%rn.cfg.obsEvery == 0)) {
 			if m := real.Observe(cur, rn.cfg.obs); m != nil {
 				return cur, trace, fail(fmt.Sprintf("after step %d %s: observer: %s", k+1, op.String(), m.Msg), "observer after op="+op.Op+" "+m.Msg)
 			}
@@ -207,6 +208,24 @@ func (rn *runner) nviol() int {
 	rn.mu.Lock()
 	defer rn.mu.Unlock()
 	return len(rn.viol)
+}
+
+// detour returns [Add(r, x), Pop(r)] if both are in the graph and lead back to state s.
+func (rn *runner) detour(s *model.State, r int) []model.Op {
+	for _, grp := range s.Groups {
+		e := s.Edges[grp[0]]
+		if e.O.Op != "Add" || e.O.R != r || e.To < 0 || len(grp) != 1 || len(e.O.Vs) != 1 || e.O.Vs[0].K == "ref" || e.O.Vs[0].K == "lit" {
+			continue
+		}
+		mid := rn.g.States[e.To]
+		for _, g2 := range mid.Groups {
+			e2 := mid.Edges[g2[0]]
+			if e2.O.Op == "Pop" && e2.O.R == r && e2.To == s.ID && len(g2) == 1 {
+				return []model.Op{e.O, e2.O}
+			}
+		}
+	}
+	return nil
 }
 
 // pathTo returns the BFS-tree path (group indices) from the initial state to state s.
@@ -375,6 +394,35 @@ func cmdReplay(args []string) int {
 				}
 				return -1
 			}
+			// the same operation once more after a detour that changes only hidden state: Add then Pop on the
+			// receiver (and on a list argument) leaves the abstract heap as it was, but the spine now has spare capacity
+			if len(j.gis) == 1 {
+				op := j.s.Edges[j.s.Groups[j.gis[0]][0]].O
+				for _, target := range []int{op.R, op.J} {
+					if target <= 0 || target > len(j.s.Heap) || j.s.Heap[target-1].T != "L" {
+						continue
+					}
+					detour := rn.detour(j.s, target)
+					if detour == nil {
+						continue
+					}
+					full := append(append([]model.Op{}, prefix...), detour...)
+					chd := func(st *model.State, k int) int {
+						if k < len(full) {
+							return groupOf(st, full[k])
+						}
+						if k == len(full) && st.ID == j.s.ID {
+							return j.gis[0]
+						}
+						return -1
+					}
+					if _, _, v := rn.runPath(chd, *seed+int64(i%7), "cover-detour", false); v != nil {
+						rn.report(v)
+						return
+					}
+					atomic.AddInt64(&rn.detours, 1)
+				}
+			}
 			_, tr, v := rn.runPath(ch, *seed+int64(i%7), "cover", i%1000 == 0)
 			if v != nil {
 				rn.report(v)
@@ -497,6 +545,7 @@ func cmdReplay(args []string) int {
 		"walk_len":             *walkLen,
 		"steps":                rn.steps,
 		"behaviours_cut":       rn.skipped,
+		"spare_capacity_detours": rn.detours,
 		"api_calls":            rn.calls,
 		"behaviours":           rn.paths,
 		"distinct_state_ops":   len(rn.distinct),
